@@ -546,8 +546,15 @@ pub fn run_unit(_tier: Tier, unit: &Value, out: &mut UnitResult, which: &'static
     }
     for s in seqs {
         // the dial-and-drop operation is explored in histories of up to three operations (both tiers)
+        // (a four-operation history that contains it is cut back to its first three operations,
+        // run once per such prefix)
+        let mut s = s;
         if s.len() > 3 && s.iter().any(|o| matches!(o, HOp::DialDrop(..))) {
-            continue;
+            let first = all_ops_for(which)[0];
+            if s[3] != first || !s[..3].iter().any(|o| matches!(o, HOp::DialDrop(..))) {
+                continue;
+            }
+            s.truncate(3);
         }
         // (histories without a slow RPC are kept too: this variant starts from a connected triangle,
         // a non-initial state, which the plain variant only reaches after three dials)
